@@ -202,30 +202,16 @@ class Beam(_Simu):
             return
 
         # Euler-Bernoulli: transverse v/w use Hermitian shape functions (couple
-        # force and moment DOFs); axial / torsion / pure-rotation DOFs use the
-        # Lagrange path from the base class.
+        # force and moment DOFs). The split between Hermitian and Lagrange fields
+        # holds in the beam axes, so every global component goes through the beam
+        # shape function matrix expressed in the global axes (see below).
         beamStructure = self.structure
         all_unknowns = self.Get_unknowns(problemType)
-        hermitian = set(all_unknowns) - {"x", "rx"}
-        lagrange_idx = [i for i, u in enumerate(unknowns) if u not in hermitian]
-        hermitian_idx = [i for i, u in enumerate(unknowns) if u in hermitian]
-
-        if lagrange_idx:
-            super().add_lineLoad(
-                nodes,
-                [values[i] for i in lagrange_idx],
-                [unknowns[i] for i in lagrange_idx],
-                problemType,
-                description,
-            )
-
-        if not hermitian_idx:
-            return
 
         dof_n = beamStructure.dof_n
         matrixType = MatrixType.beam
-        herm_unknowns = [unknowns[i] for i in hermitian_idx]
-        herm_values = [values[i] for i in hermitian_idx]
+        herm_unknowns = list(unknowns)
+        herm_values = list(values)
 
         elements = groupElem.Get_Elements_Nodes(nodes, exclusively=True)
         if elements.shape[0] == 0:
@@ -238,6 +224,11 @@ class Beam(_Simu):
         coord_e_pg = groupElem.Get_GaussCoordinates_e_pg(matrixType, elements)
         wJ_e_pg = groupElem.Get_weightedJacobian_e_pg(matrixType)[elements]
         N_e_pg = groupElem.Get_beam_N_e_pg(beamStructure)[elements]
+        # rows of N give the fields in the beam axes: u_loc = R · u_glob
+        # -> u_glob = Rᵀ · N · u_e, with R the nodal block of P
+        R_e = np.asarray(groupElem._Compute_P_e_pg(beamStructure))[elements, 0]
+        R_e = R_e[:, :dof_n, :dof_n]
+        N_e_pg = np.einsum("eji,epjn->epin", R_e, np.asarray(N_e_pg))
         N_lag_pg = groupElem.Get_N_pg(matrixType)[:, 0, :]
 
         # Ne * dof_n * nPe DOFs per element (Hermitian N couples force and moment DOFs)
